@@ -34,6 +34,33 @@ const ZERO_COPY_THRESHOLD: usize = 4 * 1024;
 
 pub static VOID_IDENT: TStructIdentifier = TStructIdentifier { name: "void" };
 
+/// Reads a `len`-byte payload whose length was announced on the wire.
+///
+/// The buffer grows with the data that actually arrives instead of being allocated
+/// (and zeroed) up front, so a corrupted or hostile length prefix cannot make the
+/// decoder request gigabytes for a few bytes of input; a negative length is an error
+/// rather than a capacity-overflow panic.
+pub(crate) async fn read_wire_payload<R>(reader: &mut R, len: i64) -> Result<Vec<u8>, ThriftException>
+where
+    R: tokio::io::AsyncRead + Unpin + Send,
+{
+    use tokio::io::AsyncReadExt;
+
+    if len < 0 {
+        return Err(new_protocol_exception(
+            ProtocolExceptionKind::NegativeSize,
+            format!("negative length {}", len),
+        ));
+    }
+    let len = len as usize;
+    let mut v = Vec::with_capacity(len.min(4096));
+    let n = reader.take(len as u64).read_to_end(&mut v).await?;
+    if n != len {
+        return Err(std::io::Error::from(std::io::ErrorKind::UnexpectedEof).into());
+    }
+    Ok(v)
+}
+
 /// Validates a length prefix read from the wire against the bytes that are actually
 /// left, so that a corrupted or hostile length yields an error instead of a panic in
 /// `Bytes::split_to`.
